@@ -2,7 +2,7 @@ CONSTANTS
   Mode = "pairs"
   Depth = 1
   HistLen = 4
-  HistSpace = "all"
+  HistSpace = "mid"
 CHECK_DEADLOCK FALSE
 INIT PInit
 NEXT PNext
